@@ -13,6 +13,8 @@ import (
 
 var posType = reflect.TypeOf(ast.Pos{})
 
+var optionalPos = map[string]bool{"Pipeline.Bang": true, "ForClause.In": true, "ForClause.Semicolon": true, "CaseItem.Lparen": true, "CaseItem.Break": true}
+
 type dumpOpt struct {
 	pos bool // include ast.Pos fields
 }
@@ -52,6 +54,27 @@ func dumpValue(b *strings.Builder, v reflect.Value, o dumpOpt) {
 		for i := 0; i < v.NumField(); i++ {
 			f := v.Field(i)
 			if f.Type() == posType && !o.pos {
+				// optional tokens: keep only whether they are present
+				if k := v.Type().Name() + "." + v.Type().Field(i).Name; optionalPos[k] {
+					if !first {
+						b.WriteByte(' ')
+					}
+					first = false
+					if f.Field(0).Int() == 0 && f.Field(1).Int() == 0 {
+						b.WriteString(v.Type().Field(i).Name + "=absent")
+					} else {
+						b.WriteString(v.Type().Field(i).Name + "=present")
+					}
+				}
+				continue
+			}
+			if !o.pos && f.Kind() == reflect.Slice && f.Len() == 0 && !(v.Type().Name() == "ParamExp" && v.Type().Field(i).Name == "Word") {
+				// nil and empty are the same thing in a skeleton (except ParamExp.Word, where nil means ${#p})
+				if !first {
+					b.WriteByte(' ')
+				}
+				first = false
+				b.WriteString(v.Type().Field(i).Name + "=[]")
 				continue
 			}
 			if !first {
